@@ -46,6 +46,8 @@ func accelFamilies(thorough bool) (jobs []job) {
 	add("ALTB", altB, "", profP0, 4)
 	add("ALTB", altB, "G", profP0, 4)
 	add("ALTB", altB, "i", profP0i, 3)
+	loop3 := loop3Family(false)
+	add("LOOP3", loop3, "", profP0, 5)
 	bump := bumpFamily()
 	add("BUMP", bump, "", profP0, 5)
 	add("BUMP", bump, "G", profP0, 4)
